@@ -566,4 +566,38 @@ def doCompact (c : Cfg) (s : BState) (rev : Nat) (mask : Nat → DelOutcome) : S
       (s', calls, acc.2.2 || p)) (s, 0, false)
   (if pan then .panic else .ok rev, s)
 
+
+/-- The delete calls (`true` = compare-and-delete) a compaction makes, in order — same traversal as
+`doCompact`/`compactRange`, collecting `CompState.trace` (used by the driver's `dellog`). -/
+def compactTrace (c : Cfg) (s : BState) (rev : Nat) (mask : Nat → DelOutcome) : List (Bool × Bytes) :=
+  let cur := s.committed
+  let rev := if rev == 0 || rev > cur then cur else rev
+  let rev := match s.retryQ.head? with
+    | some w => min (w.rev - 1) rev
+    | none => rev
+  let step (acc : BState × Nat × List (Bool × Bytes)) (b : Bytes × Bytes) : BState × Nat × List (Bool × Bytes) :=
+    let s := acc.1
+    let marks := s.marks ++ [(rev, s.now)]
+    let curF := floorOf c s.store
+    let store := if s.store.get (compactKeyOf c) == none || curF < rev then s.store.put (compactKeyOf c) (be8 rev) else s.store
+    match scanPartitions c b.1 b.2 with
+    | none => ({ s with marks := marks, store := store }, acc.2.1, acc.2.2)
+    | some parts =>
+      let (t, marks) := timeoutRev c marks s.now
+      let init : CompState := { store := store, calls := acc.2.1 }
+      let cs := parts.foldl (fun (st : CompState) p =>
+        match decodeRecs (iterate c.q store p.1 p.2 0) with
+        | none => st
+        | some recs =>
+          let acts := workerActs { R := rev, compact := true, timeout := t, supportTTL := c.q.supportTTL,
+                                   eventsPfx := eventsPrefixOf c } recs
+          runDeletes mask { st with lastFailed := [] } acts) init
+      ({ s with marks := marks, store := cs.store }, cs.calls, acc.2.2 ++ cs.trace)
+  let stored := s.store.get (compactKeyOf c)
+  let store0 :=
+    match stored with
+    | some v => if v.length > 0 && fromBE (v.take 8) > rev then s.store else s.store.put (compactKeyOf c) (be8 rev)
+    | none => s.store.put (compactKeyOf c) (be8 rev)
+  ((pairs (compactBorders c)).foldl step ({ s with store := store0 }, 0, [])).2.2
+
 end KB
